@@ -20,7 +20,8 @@ Definition empty_lstate : lstate := mkLS [] [] [] [].
 
 Inductive lcall :=
 | LActivate (c : N) | LDeactivate (c : N)
-| LAttach (c d : N) (nchanges : Z) | LAttachSame (c d : N) (nchanges : Z) | LPushPull (c d : N) (nchanges : Z) | LDetach (c d : N) (nchanges : Z) | LRemove (c d : N) (nchanges : Z).
+| LAttach (c d : N) (nchanges : Z) | LAttachSame (c d : N) (nchanges : Z) | LPushPull (c d : N) (nchanges : Z) | LDetach (c d : N) (nchanges : Z) | LRemove (c d : N) (nchanges : Z)
+| LAttachFail (c d : N) (nchanges : Z).   (* an attach naming an unknown schema: it fails, after the server recorded it as attaching, when nobody else has the document attached; otherwise the schema key is ignored *)
 
 Definition cur_gen (s : lstate) (d : N) : N :=
   match aget (l_gens s) d with Some g => g | None => 0%N end.
@@ -61,6 +62,14 @@ Definition set_client (s : lstate) (c : N) (x : lclient) : lstate :=
 (* what a request carrying n changes stores for the document (d, g): nothing once it is removed
    (pushPack discards what is pushed to a removed document; the response carries the removed flag) *)
 Definition stored (s : lstate) (d g : N) (n : Z) : Z := if is_removed s d g then 0 else n.
+
+(* does another client hold (d, g) attached? (documents.FindAttachedClientCount > 0) *)
+Definition attached_elsewhere (s : lstate) (c d g : N) : bool :=
+  existsb (fun cx => negb (N.eqb (fst cx) c) &&
+                     match find_doc (lc_docs (snd cx)) d with
+                     | Some dd => N.eqb (ld_gen dd) g && dstatus_eqb (ld_status dd) DAttached
+                     | None => false
+                     end) (l_clients s).
 
 (* one call: the verdict (true = accepted) and the new state *)
 Definition lstep (s : lstate) (call : lcall) : bool * lstate :=
@@ -138,6 +147,28 @@ Definition lstep (s : lstate) (call : lcall) : bool * lstate :=
               else (false, s)
           | None => (false, s)
           end
+      | None => (false, s)
+      end
+  | LAttachFail c d n =>
+      match aget (l_clients s) c with
+      | Some x =>
+          if lc_active x then
+            let g := cur_gen s d in
+            let g' := if is_removed s d g then (g + 1)%N else g in
+            let known := match find_doc (lc_docs x) d with
+                         | Some dd => if N.eqb (ld_gen dd) g' then ld_status dd else DNone
+                         | None => DNone
+                         end in
+            if dstatus_eqb known DAttached then (false, s)
+            else if attached_elsewhere s c d g'
+            then (* the schema key is looked at only by the first attacher: an ordinary attach *)
+                 (true, mkLS (aset (l_clients s) c (mkLC true (set_doc (lc_docs x) (mkLD d g' DAttached))))
+                             (aset (l_gens s) d g') (l_removed s) (wadd (l_writes s) d g' n))
+            else (* partial failure residue: the document exists, the client holds it as attaching,
+                    nothing is stored; [true] = the call took this effect (the caller sees an error) *)
+                 (true, mkLS (aset (l_clients s) c (mkLC true (set_doc (lc_docs x) (mkLD d g' DAttaching))))
+                             (aset (l_gens s) d g') (l_removed s) (l_writes s))
+          else (false, s)
       | None => (false, s)
       end
   | LRemove c d n =>
